@@ -61,8 +61,16 @@ fn run_local(b: &Backend, c: &LCase, m: &mut M, rep: &mut Report, model_too: boo
             return;
         }
     };
-    // P(I): the round trip
+    // P(I): the round trip — preceded, on this same thread, by a decryption that must FAIL (same token, another
+    // key): "for every key and payload" includes the calls that follow a rejected token
     let plain = c.a.is_empty() && c.via == SealVia::Plain;
+    {
+        let mut k2 = c.key.clone();
+        k2[0] ^= 0x80;
+        if (b.local_decrypt)(&k2, &tok, &c.a, plain).is_ok() {
+            rep.violation(&format!("c01.{cls}.wrong-key-accepted"), format!("{} decrypts a token under another key", b.name), lcase_json(b, c));
+        }
+    }
     match (b.local_decrypt)(&c.key, &tok, &c.a, plain) {
         Ok((m2, f2)) if m2 == c.m && f2 == c.f => {}
         other => {
@@ -72,6 +80,13 @@ fn run_local(b: &Backend, c: &LCase, m: &mut M, rep: &mut Report, model_too: boo
             };
             rep.violation(&format!("c01.{cls}.roundtrip"), format!("{} encrypt->to_string->parse->decrypt: {what}", b.name), lcase_json(b, c));
             return;
+        }
+    }
+    // the same token read through a typed footer (wire form not unique): same claims, footer decoded
+    if !c.f.is_empty() && c.f.last() != Some(&b' ') {
+        match (b.unseal_typed_footer)(true, &c.key, &tok, &c.a) {
+            Ok((m2, f2)) if m2 == c.m && f2 == c.f => {}
+            other => rep.violation(&format!("c01.{cls}.roundtrip-typed-footer"), format!("{} round trip through a typed footer: {:?}", b.name, other.map(|x| (x.0.len(), x.1.len()))), lcase_json(b, c)),
         }
     }
     rep.nontrivial(format!("{}|local|{}|f{}|a{}|{}|{}", b.name, len_class(c.m.len()), c.f.len().min(2), c.a.len().min(1), c.key_src, via_name(c.via)));
@@ -147,6 +162,15 @@ fn run_public(b: &Backend, c: &PCase, m: &mut M, rep: &mut Report, model_too: bo
         }
     };
     let plain = c.a.is_empty() && c.via == SealVia::Plain;
+    // a verification that must FAIL first (the token with its last signature byte changed), on this thread
+    if let Some((mut p2, f2)) = lab::token_parts(&tok) {
+        if let Some(l) = p2.last_mut() {
+            *l ^= 1;
+        }
+        if (b.public_verify)(&c.pk, &lab::token_string(b.ver, "public", &p2, &f2), &c.a, plain).is_ok() {
+            rep.violation(&format!("c01.{cls}.forged-accepted"), format!("{} verifies a token whose signature was altered", b.name), pcase_json(b, c));
+        }
+    }
     match (b.public_verify)(&c.pk, &tok, &c.a, plain) {
         Ok((m2, f2)) if m2 == c.m && f2 == c.f => {}
         other => {
@@ -156,6 +180,12 @@ fn run_public(b: &Backend, c: &PCase, m: &mut M, rep: &mut Report, model_too: bo
             };
             rep.violation(&format!("c01.{cls}.roundtrip"), format!("{} sign->to_string->parse->verify: {what}", b.name), pcase_json(b, c));
             return None;
+        }
+    }
+    if !c.f.is_empty() && c.f.last() != Some(&b' ') {
+        match (b.unseal_typed_footer)(false, &c.pk, &tok, &c.a) {
+            Ok((m2, f2)) if m2 == c.m && f2 == c.f => {}
+            other => rep.violation(&format!("c01.{cls}.roundtrip-typed-footer"), format!("{} round trip through a typed footer: {:?}", b.name, other.map(|x| (x.0.len(), x.1.len()))), pcase_json(b, c)),
         }
     }
     rep.nontrivial(format!("{}|public|{}|f{}|a{}|{}|{}", b.name, len_class(c.m.len()), c.f.len().min(2), c.a.len().min(1), c.key_src, via_name(c.via)));
@@ -219,7 +249,7 @@ fn replay(ctx: &Ctx, path: &str, rep: &mut Report, m: &mut M) {
 
 pub fn run(ctx: &Ctx) {
     let mut rep = Report::new("C01", &ctx.tier, ctx.seed);
-    rep.rule = "every sealing entry point (seal / encrypt / encrypt_with_aad / sign / sign_with_aad) on all six backends, through V::nonce(): payload lengths at every AES/ChaCha block boundary, footers (empty, JSON, '.', NUL, 33 random bytes), assertions (empty / non-empty where supported), keys from random(), From<[u8;32]> and parsed bytes incl. boundary scalars; RustCrypto backends under a scripted getrandom so that model and implementation must be bit-equal; a case is non-trivial when the token was produced by the library's own nonce path and round-tripped; distinct = (backend, purpose, length class, footer class, assertion class, key source, entry point)".into();
+    rep.rule = "every message length 0..=600 once per backend and purpose; every sealing entry point (seal / encrypt / encrypt_with_aad / sign / sign_with_aad) on all six backends, through V::nonce(): payload lengths at every AES/ChaCha block boundary, footers (empty, JSON, '.', NUL, 33 random bytes), assertions (empty / non-empty where supported), keys from random(), From<[u8;32]> and parsed bytes incl. boundary scalars; RustCrypto backends under a scripted getrandom so that model and implementation must be bit-equal; a case is non-trivial when the token was produced by the library's own nonce path and round-tripped; distinct = (backend, purpose, length class, footer class, assertion class, key source, entry point)".into();
     let mut m = M::new(&ctx.model);
     if let Some(p) = &ctx.replay {
         replay(ctx, p, &mut rep, &mut m);
@@ -309,6 +339,24 @@ pub fn run(ctx: &Ctx) {
                 e.0 += 1;
                 e.1 += r0 as u64;
                 e.2 += s0 as u64;
+            }
+        }
+        // every message length 0..=600 once (fixed footer and assertion), implementation + P(I) only: lengths at
+        // which a buffer, block or inline-capacity boundary falls are not known in advance
+        {
+            let kp = &kps[0];
+            let lk = g.bytes(32);
+            let a: Vec<u8> = if b.aad { b"implicit-12b".to_vec() } else { vec![] };
+            let step = if b.name == "v1" && !thorough { 3 } else { 1 };
+            for len in (0..=600usize).step_by(step) {
+                let msg = content(&mut g, len);
+                let pc = PCase { sk: kp.sk.clone(), pk: kp.pk.clone(), key_src: kp.source, m: msg.clone(), f: b"footer-10b".to_vec(), a: a.clone(), via: SealVia::Seal };
+                run_public(b, &pc, &mut m, &mut rep, false);
+                let lc = LCase { key: lk.clone(), key_src: "parsed", m: msg, f: b"footer-10b".to_vec(), a: a.clone(), via: SealVia::Seal, rng_seed: g.next(), rng_fixed: None };
+                run_local(b, &lc, &mut m, &mut rep, false);
+                if rep.violations.len() >= 20 {
+                    break;
+                }
             }
         }
         // every key pair once (incl. boundary scalars)
